@@ -142,6 +142,7 @@ func NewKWorld(c *KCase) *KWorld {
 	for _, s := range c.Setup {
 		k.fsop(s, false)
 	}
+	waitNoReader()
 	unix.Reset()
 	if c.Buf < 0 {
 		k.w, err = NewWatcher()
@@ -174,6 +175,7 @@ func (k *KWorld) Destroy() {
 			case <-time.After(2 * time.Second):
 			}
 		}
+		waitNoReader()
 	}
 	unix.Reset()
 	os.Chdir(k.oldCwd)
